@@ -46,6 +46,9 @@ class Hooks:
     def on_call(self, st, name, args, ins):
         pass
 
+    def before_join(self, st, fn, why):
+        pass
+
     def on_loop(self, fn, head, info):
         self.log.append(('loop', fn.name, head, info))
 
@@ -665,12 +668,25 @@ class Interp:
                 del env[name]
             else:
                 env[name] = nv
-        # --- memory
-        for rname in list(H.mem):
+        # --- memory (array regions last: whether their symbolically addressed cells survive depends on
+        #     which index symbols were generalised by the other places)
+        rorder = sorted(H.mem, key=lambda rn: 1 if (rn in H.regions and H.regions[rn].kind == 'array') else 0)
+        for rname in rorder:
             cells = H.mem[rname]
             newc = {}
             dropped = False
+            isarr = H.regions[rname].kind == 'array' if rname in H.regions else False
+            gone = None
+            if isarr:
+                gone = set()
+                for hs_, a_ in sig[0].items():
+                    gone.update(a_.t)
             for k, (o, sz, v) in cells.items():
+                if isarr and o.t and any(z in gone for z in o.t):
+                    # the index expression mentions a value that this join generalises: the cell can no longer
+                    # be related to the joined index; forget it (the hook checked the cell invariant before)
+                    dropped = True
+                    continue
                 vals = []
                 missing = False
                 for s in states:
@@ -726,8 +742,7 @@ class Interp:
         for s in states[1:]:
             relkeys &= s.store.relset
         S.ivl = newivl
-        S.rel = [e for e in base.store.rel if e.key() in relkeys and all(x in newivl for x in e.t)]
-        S.relset = {e.key() for e in S.rel}
+        S.set_rel([e for e in base.store.rel if e.key() in relkeys and all(x in newivl for x in e.t)])
         nk = None
         for s in states:
             ks = {e.key() for e in s.store.neq}
@@ -1153,6 +1168,8 @@ class Interp:
             if len(g) == 1 or k[0] == 'S':
                 out.extend(g)
                 continue
+            for x in g:
+                self.hooks.before_join(x[0], fn, 'return of %s' % fn.name)
             H = self.generalise(g[0][0].top.fn, [x[0] for x in g], None, 'return of %s' % fn.name)
             out.append((H, g[0][1]))
         return out
